@@ -13,7 +13,7 @@ package ion
 // H_C11_fixed: NewBinaryWriterLST with a fixed table: text in the table is written with the table's ID; text outside
 // makes the call fail and nothing undefined is emitted.
 
-var vC11Pool = []string{"a", "c", "e", "z", "name", "$11"} // incl. text that looks like a symbol ID
+var vC11Pool = []string{"a", "c", "e", "z", "name", "$11", ""} // incl. text that looks like a symbol ID, and the empty symbol
 
 var vC11Names = []string{"t1", "t2", "t3"}
 
@@ -204,6 +204,9 @@ func H_C11_fixed() {
 	out := &vSink{failAt: -1}
 	w := NewBinaryWriterLST(out, lst)
 	text := vC11Pool[vnondetInt(0, len(vC11Pool)-1)]
+	// the empty symbol defined by the fixed table itself is the open known finding F13 (C09: FindByName("") does not
+	// find an empty-string symbol a local symbol table defines); it is not counted a second time here
+	vassume(text != "")
 	pos := vnondetInt(0, 2)
 	okw := vC11Write(w, []vC11Sym{{text: text, pos: pos}})
 	id, inTable := ref.byName(text)
